@@ -517,7 +517,8 @@ impl BufferTransformT for ASCIIHexDecode<'_> {
             let err = ErrorKind::TransformError("ASCIIHexDecode: no EOD in input".to_string());
             return Err(locate_value(err, loc.loc_start(), loc.loc_end()))
         }
-        let mut out = Vec::<u8>::with_capacity(stage.len() / 2 + 1);
+        // hex2bin writes into (and returns a slice of) the output buffer.
+        let mut out = vec![0u8; stage.len() / 2];
         match hex2bin(&stage, &mut out) {
             Ok(res) => Ok(ParseBuffer::new(Vec::from(res))),
             Err(e) => {
